@@ -57,3 +57,28 @@ Theorem c05_length_field_wide :
   fsz_libwifi_tagged_parameters__length = host_sizeof_size_t /\ 8 <= host_sizeof_size_t.
 Proof. split; [reflexivity | vm_compute; discriminate]. Qed.
 Print Assumptions c05_length_field_wide.
+
+(* ---- statements about the C code AS TRANSLATED on this run (Gen/Sites.v: every guard, declaration, conversion and call argument with the
+   types clang computed; tools/sites.py), for every memory m and every environment: tie #1 extended from constants to arithmetic and
+   control flow.  Vocabulary in Spec/CodeSpec.v, evaluator and interpreter in Base/CExpr.v, proofs in Proofs/SitesProofs.v. ---- *)
+From Coq Require Import String.
+From LW Require Import Base.CExpr Gen.Sites Spec.CodeSpec Proofs.SitesProofs.
+Local Open Scope string_scope.
+Local Open Scope Z_scope.
+
+(* len = tags->length, tl = tag->header.tag_len, p = tags->parameters, q = what the allocator answers. *)
+Theorem c05_code_add_tag : forall m rho len tl p q,
+  0 <= len < 2 ^ 62 -> 0 <= tl < 256 -> 0 < p -> p + len + 257 < 2 ^ 63 ->
+  (if (len =? 0)%Z then rho "ret:malloc" else rho "ret:realloc") = q ->
+  0 <= q -> q + len + 257 < 2 ^ 63 ->
+  let rho0 := upd (upd (upd rho "tags->length" len) "tag->header.tag_len" tl) "tags->parameters" p in
+  let alloc := if (len =? 0)%Z then ("malloc", [2 + tl]) else ("realloc", [p; len + 2 + tl]) in
+  if (q =? 0)%Z then observe (exec 40 m rho0 [] body_libwifi_add_tag) = Some (Some (-12), [alloc])
+  else exists rho',
+    exec 40 m rho0 [] body_libwifi_add_tag =
+      Returned (Some 0) rho'
+        [alloc; ("memcpy", [q + len; wrap u64 (rho "&tag->header"); 2]);
+                ("memcpy", [q + len + 2; wrap u64 (rho "tag->body"); tl])] /\
+    rho' "tags->length" = len + 2 + tl.
+Proof. exact code_add_tag. Qed.
+Print Assumptions c05_code_add_tag.
